@@ -51,7 +51,10 @@ R_SIB = _rule("R-SIB", "r_sib", "sib_obligations", text="constants a writer and 
 R_BITS = _rule("R-BITS", "r_sib", "bits_obligations", text="every bit of the range-proof header byte is examined, spare / padding bits are tested and rejected, and wide quantities (MuSig counter, Pedersen value) reach their 8-byte serializers without narrowing")
 R_ORD = _rule("R-ORD", "r_ord", text="hash transcript order: the precedences between parameter-rooted items absorbed into one SHA-256 state that hold on the reviewed tree (tables/transcripts.json) still hold")
 
-DECODE = [R_CHK, R_OBL, R_RED, R_ORD]
+R_TAG = _rule("R-TAG", "r_tag", text="the constants of every tagged-hash initialiser equal the SHA-256 midstate of SHA256(tag)||SHA256(tag) for the tag the specification assigns (tables/tags.json; reference computed by the checker)")
+R_BOOL = _rule("R-BOOL", "r_bool", text="every exported int verdict is boolean-valued (greatest fixpoint over the call graph; comparators and iteration counts are named exceptions)", all_for=("C07",))
+
+DECODE = [R_CHK, R_OBL, R_RED, R_ORD, R_TAG, R_BOOL]
 BOUNDS = [R_CAP, R_RING, R_WRAP, R_INB, R_LEN, R_SIB, R_BITS]
 
 ALL_CFG = ["K0", "K1", "K2", "K3"]
@@ -94,10 +97,10 @@ _prop("C05", [R_FLOW, R_PAIR],
       "scratch checkpoints of the multi-scalar batches are restored on every exit.",
       "ALL field / scalar / group / ecmult exactness and cross-configuration bit-identity: statements about 256-bit values, out of reach of static analysis here "
       "(a seeded carry loss in scalar_mul_shift_var is NOT detected; declared not applicable for those clauses)")
-_prop("C07", BOUNDS + [R_PAIR, R_SIZE],
+_prop("C07", BOUNDS + [R_PAIR, R_SIZE, R_BOOL],
       "Untrusted bytes, structural clauses.",
       "general in-bounds / UB-freedom of the proof verifiers (needs relational invariants such as npub = sum rsizes <= 128, outside the interval and linear-form domains: "
-      "those sites are listed in the evidence as not armed); termination; verdict domain {0,1} and callback reachability (R-BOOL / R-ABORT not built)",
+      "those sites are listed in the evidence as not armed); termination; callback reachability from raw bytes (R-ABORT not built)",
       assumptions=_BOUND_ASSUME)
 _prop("C08", DECODE + [R_BIND],
       "Pedersen commitments, structural clauses.",
@@ -107,7 +110,7 @@ _prop("C09", DECODE + BOUNDS,
       "created proofs verify, bound the value, rewind (value-level)", assumptions=_BOUND_ASSUME)
 _prop("C10", DECODE + BOUNDS,
       "Range-proof verification, structural clauses.",
-      "the Borromean ring equation and hash binding; reserved header bits / prover-verifier constant agreement (R-BITS / R-SIB not built)", assumptions=_BOUND_ASSUME)
+      "the Borromean ring equation and hash binding values", assumptions=_BOUND_ASSUME)
 _prop("C11", DECODE + BOUNDS + [R_PAIR, R_SIZE],
       "Surjection proofs, structural clauses.",
       "subset selection correctness, the ring equation", assumptions=_BOUND_ASSUME)
